@@ -52,7 +52,7 @@ theorem subLoop_first {o : FOps} (f : Fn) (ubErr : Rat) (i : Int) (ub : Rat) (st
     obtain ⟨dx2, _, h⟩ := bind_ok h
     obtain ⟨dx3, _, h⟩ := bind_ok h
     dsimp only at h
-    generalize (if fsub o ub (fadd o x0 dx3) < eps6 then ub else fadd o x0 dx3) = x1 at h
+    generalize (if snapCond o ub (fadd o x0 dx3) then ub else fadd o x0 dx3) = x1 at h
     obtain ⟨f1, _, h⟩ := bind_ok h
     have hf' := first_addPoint (o := o) hf x1 f1
     split at h
